@@ -24,6 +24,7 @@ def run(ctx):
         singles = {tx.vf.canon(e["act"]["tx"]) for e in edges}
         blocks = tx.blocks_from_paths(paths + [{"init": inits[0], "steps": [{"act": e["act"]}]} for e in edges if e["from"] == inits[0]], ctx.rng,
                                       None if ctx.thorough else 500)
+        npaths = sum(1 for b in blocks if b.get("reset"))      # scenario groups really executed (after de-duplication)
         ngroups, nblk = (150, 6) if ctx.thorough else (30, 5)
         blocks += tx.random_blocks(ctx.rng, ngroups, nblk)
         tp = tx.run_blocks(ctx, binary, blocks, "c05")
